@@ -2215,6 +2215,13 @@ fn nesting_input(kind: &str, n: usize) -> String {
         "group_open_only" => format!("SELECT * WHERE {}", "{".repeat(n)),
         "quoted_open_only" => format!("SELECT * WHERE {{ {}", "<<".repeat(n)),
         "filter_paren_open_only" => format!("SELECT * WHERE {{ ?s ?p ?o FILTER({}", "(".repeat(n)),
+        // prefix operators and other constructs that a recursive-descent parser may recurse on without a bracket
+        "filter_not" => format!("SELECT * WHERE {{ ?s ?p ?o FILTER({}?o = 1) }}", "!".repeat(n)),
+        "filter_not_spaced" => format!("SELECT * WHERE {{ ?s ?p ?o FILTER({}(?o = 1)) }}", "! ".repeat(n)),
+        "filter_minus" => format!("SELECT * WHERE {{ ?s ?p ?o FILTER(?o > {}1) }}", "-".repeat(n)),
+        "union_chain" => format!("SELECT * WHERE {{ {}{{ ?s ?p ?o }} }}", "{ ?s ?p ?o } UNION ".repeat(n)),
+        "subselect" => format!("SELECT * WHERE {{ {}?s ?p ?o{} }}", "{ SELECT * WHERE { ".repeat(n), " } }".repeat(n)),
+        "bind_concat_args" => format!("SELECT * WHERE {{ ?s ?p ?o BIND(CONCAT({}?o) AS ?z) }}", "?o, ".repeat(n)),
         _ => String::new(),
     }
 }
@@ -2665,7 +2672,7 @@ fn main() {
     s.run(&Mutations);
     s.run(&History);
     let mut nest = vec![];
-    for kind in ["group", "quoted", "filter_paren", "group_open_only", "quoted_open_only", "filter_paren_open_only"] {
+    for kind in ["group", "quoted", "filter_paren", "group_open_only", "quoted_open_only", "filter_paren_open_only", "filter_not", "filter_not_spaced", "filter_minus", "union_chain", "subselect", "bind_concat_args"] {
         for n in [100usize, 1_000, 10_000, 100_000] {
             nest.push(NestCase { kind: kind.into(), n });
         }
